@@ -80,6 +80,7 @@ type State struct {
 	thread    int     // logical thread (1-based) inside vParallel, 0 outside
 	sharedMax int     // objects with id <= sharedMax existed before the parallel section
 	accesses  *access // persistent list of recorded accesses
+	atomicOp  bool    // set while a sync/atomic intrinsic performs its access
 	expectPanic string // set by vExpectPanic: a Go panic is the required outcome of this path
 	names   map[string]int // per-path counters for repeated input names (immutable, copied on write)
 }
@@ -732,7 +733,9 @@ type access struct {
 	off    *Term
 	n      int
 	write  bool
+	atomic bool
 	locks  string
+	lockID []int
 	pos    string
 }
 
@@ -741,8 +744,9 @@ func (e *Engine) record(st *State, o *Object, off *Term, n int, write bool) {
 		return
 	}
 	locks := ""
+	var ids []int
 	if len(st.locks) > 0 {
-		ids := make([]int, 0, len(st.locks))
+		ids = make([]int, 0, len(st.locks))
 		for l := range st.locks {
 			ids = append(ids, l.obj.id<<16+int(l.off))
 		}
@@ -751,7 +755,7 @@ func (e *Engine) record(st *State, o *Object, off *Term, n int, write bool) {
 	}
 	// dedupe identical accesses
 	for a, k := st.accesses, 0; a != nil && k < 64; a, k = a.prev, k+1 {
-		if a.thread == st.thread && a.obj == o && a.off == off && a.n == n && a.write == write && a.locks == locks {
+		if a.thread == st.thread && a.obj == o && a.off == off && a.n == n && a.write == write && a.locks == locks && a.atomic == st.atomicOp {
 			return
 		}
 	}
@@ -762,7 +766,7 @@ func (e *Engine) record(st *State, o *Object, off *Term, n int, write bool) {
 			pos = e.pos(f.block.Instrs[f.ip])
 		}
 	}
-	st.accesses = &access{prev: st.accesses, thread: st.thread, obj: o, off: off, n: n, write: write, locks: locks, pos: pos}
+	st.accesses = &access{prev: st.accesses, thread: st.thread, obj: o, off: off, n: n, write: write, atomic: st.atomicOp, locks: locks, lockID: ids, pos: pos}
 }
 
 // lockKey identifies a mutex by its object and (concrete) cell offset.
